@@ -507,7 +507,7 @@ def eval_replace(state, arg):
                 else:
                     old = rng.choice(["zzzz", "not there", "@@"])
                 new = rng.choice(["", "X", "new text", "a\nb", "1\n2\n3", "<&>", old + old, "é",
-                                  "C:\\dir\\1", "\\g<0>\\n"])   # literal backslashes: the replacement is text, not a template
+                                  "C:\\dir\\1", "\\g<0>\\n", "a\u2028b", "x\u0085y"])   # literal backslashes: the replacement is text, not a template; U+2028 / U+0085 are characters, not line breaks
                 if all_st and rng.random() < 0.3:
                     # a short needle that occurs in SEVERAL text nodes (often of one merged run, with a
                     # tab or break between them), replaced by several lines: each hit turns into several
@@ -592,12 +592,19 @@ def eval_replace(state, arg):
             cur = joined_st
             cur_pars = list(bp)
             for old, new in pairs:
-                if any(ch in "\r\x0b\x0c\x1c\x1d\x1e\x85\u2028\u2029" for ch in new):
+                # a carriage return becomes a line feed (proved: only \r needs excluding), control characters are
+                # not XML; U+0085 / U+2028 / U+2029 are ordinary characters since the D19 repair and stay in the domain
+                if any(ch in "\r\x0b\x0c\x1c\x1d\x1e" for ch in new):
                     in_domain = False
                 n_stretch = cur.count(old)
                 n_text = sum(p.count(old) for p in cur_pars)
                 if n_text != n_stretch:
                     in_domain = False  # the needle also occurs across a boundary / in a marker
+                if old and any(sum(1 for i in range(len(p)) if p.startswith(old, i)) != p.count(old) for p in cur_pars):
+                    # occurrences of the needle OVERLAP in some paragraph ("  " in "   "): which of them a
+                    # left-to-right replacement takes depends on where the text nodes are cut, so the same
+                    # number of hits does not mean the same hits - outside "inside one stretch"
+                    in_domain = False
                 cur = cur.replace(old, new)
                 cur_pars = [p.replace(old, new) for p in cur_pars]
             if not in_domain:
